@@ -160,6 +160,7 @@ def run(ctx):
     epsalg(ctx, ex)
     dea_vs_dea3(ctx, ex)
     dea_table(ctx, ex)
+    dea_floor_all_outcomes(ctx, ex)
     dea_cap(ctx, ex)
     rep.notes['trusted_base'] = ['python ast', 'ndverif abstract interpreter and exact rational-function algebra']
 
@@ -368,9 +369,8 @@ def dea_table(ctx, ex):
                         if not same(val, s[n]):
                             problems.append('term %d: returned %r' % (n, val))
                         continue
-                    es = repr(err)
-                    if not (es.startswith('max(') and 'EPS' in es and 'abs(' in es):
-                        floor_problems.append('term %d: error estimate %s' % (n, es[:80]))
+                    if not is_floored(err):
+                        floor_problems.append('term %d: error estimate %s' % (n, repr(err)[:80]))
                     # the window of terms the table can hold
                     width = min(n + 1, limexp)
                     cands = []
@@ -396,6 +396,51 @@ def dea_table(ctx, ex):
                       {'limexp': limexp, 'terms_fed': nterms, 'problems': problems[:2]},
                       'every value is an entry of the exact epsilon table of the terms in the table',
                       'limexp=%d/prefer_new=%s' % (limexp, prefer_new), key='dea-table')
+
+
+def is_floored(err):
+    """err is max(.., 5*EPS*|result|) in the normal form of the algebra, or the infinite estimate of an empty table"""
+    es = repr(err)
+    return es == 'INF' or (es.startswith('max(') and 'EPS' in es and 'abs(' in es)
+
+
+def dea_floor_all_outcomes(ctx, ex):
+    """The floor on every outcome of the convergence / irregular-behaviour guards (explored per site): after a guard
+    restarts the table the next calls run through the short-table branches of __call__ again - from the third term on
+    those must report a floored estimate as well."""
+    from ..engine import budget
+    rep = ctx.rep
+    where = where_cls(ex, 'Dea', '__call__')
+    for limexp, nterms in ((3, 7),) if ctx.tier == 'quick' else ((3, 9), (5, 8)):
+        exr = Explorer(max_paths=64, by_value=False)
+
+        def body(oracle, limexp=limexp, nterms=nterms):
+            I, models = make(ctx.repo, oracle)
+            obj = I.get_global('extrapolation', 'Dea')(limexp=limexp)
+            out = []
+            try:
+                for k in range(nterms):
+                    out.append(obj(Poly.sym('s%d' % k)))
+            except InterpRaise:
+                pass                      # the index bound is R-DEA-CAP's clause; judge the terms returned before
+            return out
+        try:
+            with budget(120, 'Dea floor limexp=%d' % limexp):
+                exr.run(body)
+        except AnalysisError as exc:
+            rep.undecided('R-DEA-FLOOR', 'extrapolation.Dea.__call__', exc, 'limexp=%d/all guard outcomes' % limexp)
+            continue
+        for decisions, res, exc in exr.paths:
+            path = ', '.join('%s=%s' % (d[1][:28], d[0]) for d in decisions)
+            label = 'limexp=%d/guards: %s' % (limexp, path or 'none met')
+            if exc is not None:
+                rep.undecided('R-DEA-FLOOR', 'extrapolation.Dea.__call__', AnalysisError(str(exc)), label)
+                continue
+            bad = ['term %d: error estimate %s' % (k + 1, repr(e)[:60]) for k, (v, e) in enumerate(res) if k >= 2 and not is_floored(e)]
+            rep.check(not bad, 'R-DEA-FLOOR', 'extrapolation.Dea.__call__', where,
+                      {'limexp': limexp, 'terms_fed': nterms, 'terms_returned': len(res), 'guard_outcomes': path, 'problems': bad[:3]},
+                      'from the third term on every reported error is max(.., 5*EPS*|result|), whatever the guards decide',
+                      label, key='dea-floor-guard-outcomes')
 
 
 def dea_cap(ctx, ex):
